@@ -75,6 +75,10 @@ claimed = {
    text="Reduced form: proof of a one-state sufficient condition for the renderer part of the statement. The statement relates two executions (long-lived engine vs one engine per request on a store) and goes through cbor by reflection; neither is expressible as a function contract. What is decided: whenever execution resumes after a HALT (call-site assertions inside Vm.Run's loop, for every program and history), the renderer state that is not persisted has the values a freshly created VM has - mapping table empty, no sink, no extra text, no error notice, menu empty, page cursors empty - and Engine.prepare forgets the previous request's exit value / exiting / executed marks. So a long-lived engine enters every request with the same non-persisted state as an engine built from the saved session.",
    note="Genuine defect found and repaired (fix: b2eba03): the error notice (Page.err) was kept for the lifetime of the VM, a long-lived engine prefixed every later page with 'invalid input: x' while per-request engines showed it once (known/H26_sticky_render_state_test.go compares both modes on the real code). NOT decided: equality of the two executions as a whole; Serialize/Deserialize being inverse on the persisted fields (cbor, reflection); the other scratch fields (Sizer.sink, Sizer.memberSizes, Menu.browse/pageCount) are not claimed; backends other than by their own properties (C10-C13).",
    ref="4/C07"),
+ "C02": dict(
+   text="Proof part (all inputs): Menu.applyPage offers 'next' on every page but the last and 'previous' on every page but the first and answers an index past the page count with a BrowseError; Sizer.GetAt reports a page index past the recorded page starts as an error, copies every non-sink value unchanged, and its slice expressions cannot panic when every page start lies inside the content; Page.joinSink records exactly one page start per page after the first and (by lengths and last bytes of the builders) every page start lies inside the returned content - for every row list, remaining size and menu size; applyTarget/State.Next/Previous move the page index as the move table says (shared with C04). BOUNDED part (labelled bounded, not counted as proved): the content relation - walking the pages from index 0 shows every row exactly once and in order, static text and ordinary menu on every page, every offered entry leads to a page that renders - is checked by running the real Page.Render for every page index over all row lists up to a bound (quick: rows from {\"\",a,bb,cccc}, 1..4 rows, 12 output sizes, 4066 walks; thorough: 5 row values, 1..5 rows, 40 sizes, 155641 walks).",
+   note="Known findings: H8a/H8b (proof part: a trailing empty row on a page of its own gives a page start past the trimmed content and one page start too many) = H8c (bounded part: GetAt panics on that page), H9 (empty row at the start of a page is dropped), H27 (a page offers 'next' to a page that exceeds the limit; found by the bounded harness). Builder contents, strings.Split and text/template are not modelled (lengths and last bytes only); RenderTemplate/Menu.Render/prepare have assumed frame-only contracts. Trusted: strings.Builder/TrimRight/Index stubs, vcgo translation, solvers.",
+   ref="4/C02"),
 }
 
 pending_reason = "pending: contracts for this property are not yet under vcgo (see DESIGN.md section 4)"
